@@ -5,7 +5,7 @@ from hypothesis import strategies as st
 
 PROP = 'C14'
 LEVEL = 'exploration'
-BUDGET = {'quick': 16000, 'thorough': 320000}
+BUDGET = {'quick': 32000, 'thorough': 640000}
 RULE = ('cases = operation sequences (<=30 ops) over one SimulatedClock whose real-time source '
         '(sismic.clock.clock.time) is replaced by a scripted function: start, stop, speed=s '
         '(multiples of 1/8 in [0,16]), time=x (x below, equal to, or above the current value), '
